@@ -16,7 +16,7 @@ EXPLANATION = (
     "compiled against the working tree's library with the driver, and the witness MIR is analysed. C20.E list form: each ek has exactly one call site on every path, the call sites are totally ordered by dominance in index order, the array aggregate "
     "handed to from_array has operand i = result of ei, and the const generic length of that call equals the element count; that the declared length U{k} type-checks is the accept witness (reject twins with U{k+1} must fail). Counts: quick 0..=12, 31..=33, 64, 100, 256; "
     "thorough every count 0..=64 plus 100, 128, 255, 256; with and without trailing comma; const fn position. C20.R repeat forms: x() is evaluated exactly once, the value is repeated by a `[v; n]` rvalue with n = N::USIZE (resp. the literal) and passed "
-    "to the local const fn __do_transmute (whose body is const_transmute::<[T; n], GenericArray<T, N>>, size-guarded, C01.T) resp. to from_array::<n>. C20.B box_arr! (F1): list form - each ek called once in order, the aggregate stored into the vec! allocation "
+    "(C20.N: items an expansion defines beside the caller's expressions carry reserved `__` names - macro hygiene does not protect items) to the local const fn __do_transmute (whose body is const_transmute::<[T; n], GenericArray<T, N>>, size-guarded, C01.T) resp. to from_array::<n>. C20.B box_arr! (F1): list form - each ek called once in order, the aggregate stored into the vec! allocation "
     "has operand i = result of ei, the unit array has the same count k and __from_vec_helper::<k> is instantiated with N = U{k}; repeat forms - vec::from_elem(x(), n) with n = N::USIZE then try_from_vec(..).unwrap(). Values equal a native literal because operand i = result of ei "
     "and from_array is a reinterpretation at offset 0 (C02.T, C01); nothing is executed.")
 
@@ -195,6 +195,23 @@ def check(ctx):
             continue
         ctx.ob("C20.L", "witness crate (%s)" % cfg, PROVED, "all %d list / repeat / const-position witnesses type-check with their declared lengths" % src.count("\npub "), cfg=cfg)
         db = Facts(facts)
+        # C20.N hygiene of items: macro_rules! hygiene covers locals and labels, NOT items. An item (fn / const / static) that the expansion defines
+        # in the block where the caller's element expressions are expanded shadows any caller item of the same name inside those expressions,
+        # silently changing their value. Such items must carry reserved (double-underscore) names.
+        nested = []
+        wpaths = {x["path"] for x in db.bodies if x["kind"] == "Fn" and x["path"].split("::")[-1].startswith(("w_", "b_"))}
+        for x in db.bodies:
+            if x["kind"] in ("Closure", "AnonConst", "InlineConst", "Promoted"):
+                continue
+            if "::" not in x["path"]:
+                continue
+            par = x["path"].rsplit("::", 1)[0]
+            if par in wpaths:
+                nested.append((par.split("::")[-1], x["path"].split("::")[-1], x["kind"]))
+        badn = sorted({(w.split("_")[1] if "_" in w else w, nm, kd) for w, nm, kd in nested if not nm.startswith("__")})
+        ctx.ob("C20.N", "expansion-local items (%s)" % cfg, not badn,
+               "items the expansions define next to the caller's element expressions: %s; all carry reserved `__` names: %s%s" % (
+                   sorted({nm for _, nm, _ in nested}), not badn, ("; capturable names: %s" % badn) if badn else ""), cfg=cfg)
         for k in ks:
             check_list(ctx, cfg, db, "w_list_%d" % k, k, False)
             n_list += 1
